@@ -1,5 +1,6 @@
 import Lean.Data.Json
 import Ktm.SpaceDisc
+import Ktm.Rpc
 /-! Line-protocol driver for the `programs` suite (C13): build programs run on the container model, the
     discovery loop and the new-entry flags. Values are coded as integers by the harness. -/
 open Lean Space
@@ -71,6 +72,14 @@ def handle (j : Json) : String :=
     match updateSpace allow tune o (spaceOf j "new") with
     | .ok o' => s!"space=[{String.intercalate ";" (o'.hps.map hpStr)}] values=[{valsStr o'.values}]"
     | .error (.notAllowed ns) => s!"ERR:notAllowed{ns}"
+  | "decode" =>
+    -- C16: the space decoder: `order` = entries as the proto lists them (grouped by type), names numbered
+    let es : List Reorder.E := match (j.getObjVal? "order").toOption with
+      | some (.arr a) => a.toList.filterMap (fun e => match e with
+          | .arr #[n, cs] => (n.getNat?).toOption.map (fun n => ⟨n, (intList cs).map Int.toNat⟩) | _ => none)
+      | _ => []
+    let names := es.map (·.name)
+    String.intercalate "," ((Rpc.decodeSpace names es).map (fun e => toString e.name))
   | _ => "bad-op"
 
 end DriverSpace
